@@ -662,7 +662,7 @@ def correspondence(ctx):
             segs = run_events(pair, events, 1)
             walks.append((label, events, segs, 1))
         # random walks
-        nw, ml, mb = ctx.n(1000, 12000), ctx.n(40, 120), ctx.n(3, 6)
+        nw, ml, mb = ctx.n(1000, 8000), ctx.n(40, 120), ctx.n(3, 6)
         K = ctx.n(8, 12)
         for w in range(nw):
             segs = []
@@ -694,7 +694,7 @@ def correspondence(ctx):
         # CONFIGURATION: file journals, endpoints restarted (new Journaler + new connection object over the same file)
         fpair = Pair(file=True)
         try:
-            nfw = ctx.n(200, 2500)
+            nfw = ctx.n(200, 1500)
             stats["file_walks"] = {"walks": nfw, "restarts": 0}
             for w in range(nfw):
                 segs = []
@@ -746,7 +746,7 @@ def correspondence(ctx):
         for (label, events, segs, k) in walks[:2] + walks[-2:]:
             samples.append({"label": label, "events": " ".join(short(e) for e in events)[:300], "last": segs[-1][:300]})
         # exhaustive
-        depth = ctx.n(7, 11)
+        depth = ctx.n(7, 10)
         ev2, dis2 = exhaustive(pair, drv, depth, stats)
         evals += ev2
         dis += dis2
@@ -943,8 +943,8 @@ def oracle(ctx, disagreements, broken):
                                      "observed": f"states {pair.state('I')} {pair.state('A')}"})
             info["events"] = len(events)
             long_stats.append(info)
-        nw = ctx.n(800, 5000) * (3 if broken else 1)
-        nwf = ctx.n(150, 1000) * (3 if broken else 1)
+        nw = ctx.n(800, 3000) * (3 if broken else 1)
+        nwf = ctx.n(150, 600) * (3 if broken else 1)
         ml, mb = ctx.n(40, 120), ctx.n(3, 6)
         restarts_total = [0]
         for wi in range(nw + nwf):
@@ -976,7 +976,7 @@ def oracle(ctx, disagreements, broken):
         # exhaustive on the implementation alone (when the tie is broken, or in the thorough tier)
         pair = mpair
         if broken or ctx.tier == "thorough":
-            exhaustive_impl(pair, ctx.n(8, 10), lambda p, events: mon.check(p, events))
+            exhaustive_impl(pair, ctx.n(8, 9), lambda p, events: mon.check(p, events))
         ctx.oracle_stats = {"states_checked": mon.n, "quiescent_points": mon.quiescent, "walks": nw, "file_walks": nwf,
                             "restarts": restarts_total[0], "chunked_deliveries": getattr(mpair, "chunked", 0) + getattr(fpair, "chunked", 0),
                             "completed_recoveries": mon.recoveries, "failures": len(mon.failures),
